@@ -6,19 +6,19 @@ HERE = os.path.dirname(os.path.dirname(os.path.abspath(__file__)))
 SYMX = "symbolic execution of the real Python source (NUMBA_DISABLE_JIT=1, module-level names rebound to proxies over z3 terms), every clause an SMT query (z3), counterexamples replayed on the compiled public API"
 
 CHECKS = {
-    "C01": dict(text="inductive step: real update_orientations from an arbitrary valid stored history with a nondeterministic LSODA (arbitrary finite state after each of <= 3 steps): one valid snapshot appended, earlier snapshots untouched and unaliased; extract_vars contract for arbitrary state vectors; rhs purity; orientation rates tangent to SO(3) (dA A^T + A dA^T = 0 at every rotation state) for every accepted regime through the real eval_rhs/derivatives; symbolic-seed plumbing of the initial snapshot. One genuine defect (matrix_diffusion rate not tangent) recorded as a known finding.",
+    "C01": dict(text="inductive step: real update_orientations from an arbitrary valid stored history with a nondeterministic LSODA (arbitrary finite state after each of <= 3 steps): one valid snapshot appended, earlier snapshots untouched and unaliased; extract_vars contract for arbitrary state vectors; rhs purity; orientation rates tangent to SO(3) (dA A^T + A dA^T = 0 at every rotation state) for every accepted regime through the real eval_rhs/derivatives; symbolic-seed plumbing of the initial snapshot; the contract assumed for the grain kernel in the dislocation-type regimes (rate = A . skew on every path of the real kernel, all six fabrics) is proved in the same run. One genuine defect (matrix_diffusion rate not tangent) recorded as a known finding.",
                 note="exact real arithmetic; LSODA replaced by a nondeterministic stub (contract: finite state, positive clipped volume sum); n_grains <= 3 (quick) / 4 (thorough); the size of the orthonormality drift (LSODA error) and scipy's Rotation.random are outside the claim (first-order tangency and seed plumbing are decided)",
                 tech="symbolic execution of real source + SMT (z3), inductive invariant, nondeterministic solver stub"),
     "C03": dict(text="all feasible paths of the real grain kernel for the 6 (phase, fabric) pairs over all unit quaternions, velocity gradients and parameters: every division/power is defined (no exception, finite), the rate is A composed with a skew spin; real derivatives with the kernel stubbed: zero net volume change, dead grains, linearity in M* and phi, growth criterion.",
                 note="exact reals; x**y and exp are uninterpreted with sign/zero axioms; one grain for the kernel, n_grains <= 3/4 for the aggregate; path feasibility pruning treats solver-unknown as feasible",
                 tech="symbolic execution of real source + SMT (z3), definedness obligations, compositional contracts"),
-    "C05": dict(text="real update_orientations run for (L, [t0,t1]) and (kL(kt), [t0/k,t1/k]) with symbolic k > 0 in one execution; rhs captured through the LSODA stub and compared at an arbitrary state: identical kernel arguments, rhs' = k rhs on all three blocks, identical initial vector, span-relative first step, k-independent tolerances.",
+    "C05": dict(text="real update_orientations run for (L, [t0,t1]) and (kL(kt), [t0/k,t1/k]) with symbolic k > 0 in one execution; rhs captured through the LSODA stub, evaluated once at an arbitrary time and state and then compared at another arbitrary state (so state kept between evaluations shows): identical kernel arguments, rhs' = k rhs on all three blocks, identical initial vector, span-relative first step, k-independent tolerances.",
                 note="exact reals; spectral radius is an uninterpreted positively homogeneous function; grain kernel stubbed as a deterministic function (D = 0 => 0 proved on the real kernel); agreement of two actual LSODA runs at rounding level is outside the claim",
                 tech="symbolic execution of real source + SMT (z3), relational (two-run) harness with contracts"),
     "C06": dict(text="F block of the real rhs equals L(t, x(t)) @ F (order, row-major, time and position) for arbitrary state and uninterpreted L, x; it mentions no mineral/parameter symbol; initial vector starts with the supplied F; returned F is the solver's final F block untouched by the GBS write-back; update_all feeds the same F to all minerals and returns the last result.",
                 note="exact reals; LSODA accuracy (the tolerance bound, det F, split intervals) outside the claim",
                 tech="symbolic execution of real source + SMT (z3)"),
-    "C07": dict(text="real derivatives: viscosity-bound regimes return identically zero rates; symbolic regime/phase/fabric ordinals: exactly the unsupported or invalid ones raise ValueError; real rhs with L = 0 (real kernel, 3-6 fabrics x 2 regimes) is zero and defined; failed solver steps / exceptions leave the stored history untouched.",
+    "C07": dict(text="real derivatives: viscosity-bound regimes return identically zero rates; symbolic regime/phase/fabric ordinals: exactly the unsupported or invalid ones raise ValueError, also through the real solver and kernel for every input (symbolic unsupported pair: every path raises); real rhs with L = 0 (real kernel, 3-6 fabrics x 2 regimes) is zero and defined; failed solver steps / exceptions leave the stored history untouched.",
                 note="exact reals; eigvalsh through its spectral-radius contract; LSODA failure modelled as status 'failed' or an exception at a chosen step",
                 tech="symbolic execution of real source + SMT (z3) with symbolic integer ordinals"),
     "C08": dict(text="for both phases and all orderings of the assemblage (tuple and list), the volume fraction reaching the CPO solver is the mineral's own; every other argument and the initial vector are assemblage-independent; phi enters only as phi*M* (real derivatives); minerals share no state; update_all order-independent inputs.",
@@ -33,7 +33,7 @@ CHECKS = {
     "C04": dict(text="staged on the real helpers with Q = R(r) over all unit quaternions and the three lattice two-folds: invariants, slip rates (sign vector), Schmid tensor, softest rate (via its proved characterisation), spin, energy each obey their transformation law; kernel wiring (C02 glue); real rhs of the update for (L,F,A) vs (QLQ^T, QF, AQ^T) with the kernel replaced by its proved contract: F block and orientation rates co-rotate, volume rates unchanged.",
                 note="exact reals; spectral radius invariance under conjugation assumed (environment); integrated textures follow for the exact flow only (LSODA's elementwise atol is not frame invariant)",
                 tech="symbolic execution of real source + SMT (z3), assume-guarantee staging, polynomial normal forms modulo unit quaternions"),
-    "C10": dict(text="real voigt_averages on real Mineral objects with symbolic textures for all six assemblage/mineral orderings, built-in and fully symbolic stiffnesses: equals the phase-identity-indexed weighted sum of rotated tensors, symmetric, texture-independent K and shear invariants, co-rotation (axis generators), aligned grain, rejection of mismatched counts (symbolic ints).",
+    "C10": dict(text="real voigt_averages on real Mineral objects with symbolic textures for all six assemblage/mineral orderings, built-in and fully symbolic stiffnesses (the record used once and then edited in place): equals the phase-identity-indexed weighted sum of rotated tensors, symmetric, texture-independent K and shear invariants, co-rotation (axis generators), aligned grain, rejection of mismatched counts (symbolic ints).",
                 note="exact reals; 1-2 grains, 1-2 snapshots; general-Q co-rotation by composition with C11's group action",
                 tech="symbolic execution of real source + SMT (z3), polynomial normal forms"),
     "C12": dict(text="real elasticity_components executed up to its first eigen-decomposition on a general 21-parameter tensor: K, G are the isotropic invariants, the two contractions are C_ijkk / C_ikjk, the isotropic vector is the orthogonal projection (Pythagoras, so the percentage lies in [0,100]); K, G invariant under rotations about each coordinate axis (generators); full real function on orthorhombic tensors for enumerated LAPACK eigenvector orders/signs: monoclinic/triclinic parts vanish, squared percentages add up, axis is a principal axis; the pair (C0, C0 in a frame rotated by an exact rational rotation Q) through one call: all numbers equal, axis = +-Q axis0 (3 rotations quick, 7 x 4 eigenvector orders thorough).",
@@ -42,7 +42,7 @@ CHECKS = {
     "C13": dict(text="real _scatter_matrix / symmetry_pgr / bingham_average / coaxial_index / finite_strain / angle_fse_simpleshear on symbolic textures (2-3 grains, all unit quaternions) and deformation gradients with LAPACK eigh/eigvalsh replaced by its contract: row selection, PSD, permutation / two-fold / frame covariance, P,G,R in [0,1] summing to 1 with descending order, Bingham = last eigenvector column, BA in [0,1], left Cauchy-Green tensor and its covariance, simple-shear angle.",
                 note="exact reals; eigen-decomposition by contract (S V = V diag(l), V orthogonal, ascending); N <= 3",
                 tech="symbolic execution of real source + SMT (z3), eigen-decomposition contract stub, polynomial normal forms"),
-    "C14": dict(text="partial (misorientation kernel): real quat_product vs the Hamilton product; every operator of every lattice system acts as left multiplication by a unit quaternion (for all q) and the sets are closed under composition (exhaustive); real misorientation_hist pipeline for 3 triclinic grains: datum = |clip(<q_i,q_j>)|, invariant under frame rotation and reordering; real misorientation_index over an arbitrary histogram/theoretical density obeying their contracts: M = (theta_max/2k) sum |theory - observed| over the bins' own edges, 0 <= M <= (1 + Q)/2; Q (quadrature of the real theoretical density, one number per system) evaluated on the real function; batched variant with a contract pool (4 stack lengths x 5 pool configurations). 14 genuine defects are recorded as known findings.",
+    "C14": dict(text="partial (misorientation kernel): real quat_product vs the Hamilton product; every operator of every lattice system acts as left multiplication by a unit quaternion (for all q) and the sets are closed under composition (exhaustive); real misorientation_hist pipeline for 3 triclinic grains: datum = |clip(<q_i,q_j>)|, invariant under frame rotation and reordering; real misorientation_index over an arbitrary histogram/theoretical density obeying their contracts: M = (theta_max/2k) sum |theory - observed| over the bins' own edges (after the indices of all other lattice systems have been computed in the same process), 0 <= M <= (1 + Q)/2; Q (quadrature of the real theoretical density, one number per system) evaluated on the real function; batched variant with a contract pool (4 stack lengths x 5 pool configurations). 14 genuine defects are recorded as known findings.",
                 note="exact reals; Rotation.as_quat, arccos monotonicity, np.histogram and Pool.imap by contract; the ~0 / ~1 limits for random / single-orientation textures and binning for 2000 grains are outside the claim",
                 tech="symbolic execution of real source + SMT (z3); finite operator tables enumerated exhaustively"),
     "C15": dict(text="real resample_orientations with the RNG replaced by arbitrary variates in [0,1): all paths (volume orders x search positions) for M <= 3 grains: every output pair is one input grain's pair, zero-volume grains never drawn, the variate lies in the drawn grain's cumulative-volume interval (probability = volume), shapes, seed plumbing; shape validation with symbolic extents for 3-5-d / 1-3-d inputs.",
@@ -52,16 +52,16 @@ CHECKS = {
                 note="bounded string lengths and value selectors as stated in each contract's pre-conditions; schema-validation contracts may stay 'Not confirmed' within the budget (reported as optional-inconclusive); csv field fidelity and float repr round trip assumed",
                 tech="CrossHair symbolic execution (z3) of the real Python source; z3 regular-expression / string queries; replay through real files",
                 engine="crosshair"),
-    "C17": dict(text="real Mineral.save / load / from_file with the archive layer replaced by a dict-backed stand-in: keys written/read for any postfix, key collision freedom for all postfix strings (z3 strings), packing order and uint8 range of symbolic enum ordinals, restoration of snapshots and grain count by both loaders for 1-3 minerals under distinct postfixes in any order, corrupt state rejected before any archive call, non-.npz names rejected.",
+    "C17": dict(text="real Mineral.save / load / from_file with the archive layer replaced by a dict-backed stand-in: keys written/read for any postfix, key collision freedom for all postfix strings (z3 strings), packing order and uint8 range of symbolic enum ordinals, restoration of snapshots and grain count by both loaders for 1-3 minerals under distinct postfixes in any order, corrupt state (first or later snapshot) rejected before any archive call under numpy's conversion contract, non-.npz names rejected.",
                 note="archive contract (a key reads back the stored object); bit-exactness of float64 through np.save/zip and real files are numpy's contract and outside the claim",
                 tech="symbolic execution of real source + SMT (z3 ints / strings) with an archive stand-in"),
-    "C18": dict(text="partial (flow kernels and helpers): Jacobian of the real velocity kernels by dual numbers vs the paired gradient kernels for simple shear, Stokes cell and corner flow (3-6 axis pairs, symbolic position and parameters), trace, domain errors; strain_increment; _is_inside / _ivp_func / _ivp_jac; constructor axis validation (exhaustive); get_pathline around a nondeterministic solve_ivp obeying scipy's contract: what is integrated (helper, Jacobian, start point, backward span, terminal event, keywords), timestamps strictly increasing ending at exactly 0 for raw and regular resampling, interpolant identity; the terminal strain/domain event for arbitrary evaluation orders. 4 genuine defects recorded as known findings (pinned by doctests), matched by exact entry and value.",
+    "C18": dict(text="partial (flow kernels and helpers): Jacobian of the real velocity kernels by dual numbers vs the paired gradient kernels for simple shear, Stokes cell and corner flow (3-6 axis pairs, symbolic position and parameters), trace, domain errors; strain_increment (= |dt| x spectral radius of the symmetric part, decided through the eigen-routine contract or, when none is called, directly as root + definiteness conditions); _is_inside / _ivp_func / _ivp_jac; constructor axis validation (exhaustive); get_pathline around a nondeterministic solve_ivp obeying scipy's contract: what is integrated (helper, Jacobian, start point, backward span, terminal event, keywords), timestamps strictly increasing ending at exactly 0 for raw and regular resampling, interpolant identity; the terminal strain/domain event for arbitrary evaluation orders. 4 genuine defects recorded as known findings (pinned by doctests), matched by exact entry and value.",
                 note="exact reals; derivative rules of the dual-number shim and trig contracts are trusted; solve_ivp only by contract (t[0] = t_span[0], monotone nodes, dense interpolant): accuracy of the integrated curve (dx/dt = u, staying in the box) and the 1.25 x slack of the event location are outside the claim",
                 tech="symbolic execution of real source with dual numbers + SMT (z3); nondeterministic solve_ivp stub"),
-    "C19": dict(text="default record and all presets enumerated completely (every preset x every declared attribute, attribute and dict form); real _parse_config_params / parse_config tail / _parse_config_input_common executed with symbolic presence flags for every optional key, symbolic phase fractions, valid and invalid phase names / fabric letters, plus a finite table of special values (NaN / infinite fractions, wrongly typed fabric): only ConfigError may be raised and only for documented violations, every omitted key takes its documented default, result invariants.",
+    "C19": dict(text="default record and all presets enumerated completely (every preset x every declared attribute, attribute and dict form); real _parse_config_params / parse_config tail / _parse_config_input_common executed with symbolic presence flags for every optional key, symbolic phase fractions, valid and invalid phase names / fabric strings (derived from the enumeration's own member names; the parsed value must be the olivine member of that letter), plus a finite table of special values (NaN / infinite fractions, wrongly typed fabric): only ConfigError may be raised and only for documented violations, every omitted key takes its documented default, result invariants.",
                 note="file readers (tomllib, open, resolve_path, meshio.read, read_scsv, np.load) replaced by recording stand-ins; the three input modes are decided for every subset of the mode keys (required companions assumed present)",
                 tech="symbolic execution of real source + SMT (z3) with presence-flag dictionaries; finite tables enumerated exhaustively"),
-    "C20": dict(text="real to_spherical/to_cartesian round trip and colatitude convention under trig contracts; poles for all six reference-axes strings (2 grains, symbolic hkl); Lambert projection (masked-array path forked); point_density for the five kernels on a 3x3 grid with 2 symbolic data: normalisation, clipping, grid in disk, order and sign invariance.",
+    "C20": dict(text="real to_spherical/to_cartesian round trip and colatitude convention under trig contracts; poles for all six reference-axes strings (2 grains, symbolic hkl); Lambert projection (masked-array path forked); point_density for the five kernels on a 3x3 grid with 2 symbolic data and a symbolic positive scalar weight: normalisation, clipping, grid in disk, order and sign invariance.",
                 note="exact reals; trig/exp by contract; gridsteps = 3, 2 data; non-zero raw grid mean assumed",
                 tech="symbolic execution of real source + SMT (z3), trig contracts, polynomial normal forms"),
     "C11": dict(text="every function of pydrex/tensors.py on fully symbolic inputs (36/21 free entries, all 81 index tuples, R(q) over all unit quaternions): index maps, symmetries, contractions, inverse maps, isometry, rotation law, projector algebra, characteristic polynomial, polar decomposition under the SVD contract.",
